@@ -1086,8 +1086,10 @@ pub fn run_scenario(sc: &Scenario, sched: Sched, seed: u64, order: Option<Vec<us
             };
             if k == 'a' {
                 for h in &held_now[tid] {
-                    if base(h) != base(&class) {
-                        out.req_edges.push((tid, cur_req[tid], base(h).to_string(), base(&class).to_string()));
+                    if *h != class {
+                        // instance-aware: `slot 0 -> channels` and `channels -> slot 0` form a cycle,
+                        // `channels -> slot 1` does not close it
+                        out.req_edges.push((tid, cur_req[tid], h.clone(), class.clone()));
                     }
                 }
                 held_now[tid].push(class.clone());
@@ -1173,9 +1175,32 @@ pub fn describe_deadlock(sc: &Scenario, trace: &[Ev], replies: &[(usize, usize, 
             }
         }
     }
-    // a thread waiting for a lock it holds itself (re-entrant acquisition)
-    if let Some(t) = (0..n).find(|t| !fin[*t] && want[*t].as_ref().map(|w| held[*t].contains(w)).unwrap_or(false)) {
-        let w = want[t].clone().unwrap_or_default();
+    // a thread asking for a lock it holds itself (re-entrant acquisition; the guards are released by the
+    // unwinding afterwards, so this is read off the trace, not off the final state)
+    let relock = {
+        let mut h: Vec<Vec<String>> = vec![Vec::new(); n];
+        let mut found = None;
+        for e in trace {
+            if e.tid >= n {
+                continue;
+            }
+            match e.k {
+                'w' if h[e.tid].contains(&e.class) => {
+                    found = Some((e.tid, e.class.clone()));
+                    break;
+                }
+                'a' => h[e.tid].push(e.class.clone()),
+                'r' => {
+                    if let Some(p) = h[e.tid].iter().rposition(|c| *c == e.class) {
+                        h[e.tid].remove(p);
+                    }
+                }
+                _ => {}
+            }
+        }
+        found
+    };
+    if let Some((t, w)) = relock {
         let done = replies.iter().filter(|r| r.0 == t).count();
         let k = sc.threads[t].get(done).map(|r| r.kind()).unwrap_or("?");
         return (format!("t{}:{}>{} (requests: {})", t, w, w, k), format!("deadlock:self-relock:{}", base(&w)));
@@ -1431,6 +1456,9 @@ impl C20 {
                     stub: srcs.iter().any(|s| s.2),
                     threads: srcs.iter().map(|s| vec![s.0.clone()]).collect(),
                 };
+                if std::env::var("VERIF_C20_DBG").is_ok() {
+                    eprintln!("LOCKDEP cycle {:?} -> directed {:?}", cyc, dsc);
+                }
                 let mut q = self.directed.borrow_mut();
                 if dsc.threads.len() == 2 {
                     for k in 0..DIRECTED_MAX_POINTS {
@@ -1741,6 +1769,8 @@ impl Group for C20 {
             // map / tracker / ledger users against each other
             p(1, true, Req::SetupChan, Req::NewChan(50)),
             p(1, true, Req::SetupChan, Req::Forget(9)),
+            p(1, true, Req::SetupChan, Req::AddBlock(0)),
+            p(1, true, Req::SetupChan, Req::Heartbeat),
             p(1, false, Req::Heartbeat, Req::Forget(0)),
             p(1, false, Req::Onchain, Req::Onchain),
             p(1, false, Req::SignOnchain, Req::Forget(0)),
